@@ -7,6 +7,7 @@ import (
 	"io/fs"
 	"os"
 	"path/filepath"
+	"regexp"
 	"strings"
 	"testing"
 
@@ -33,11 +34,14 @@ type c19Case struct {
 	// Again: after the session a second connection of the same terminal repeats it (the files then exist already)
 	// the terminal's own identity: phone digits (default 13800138000) in the 2013 or 2019 header layout, and the phone
 	// of the overlapping other terminal (2013 layout; default 13900139000)
-	Phone        string  `json:"phone,omitempty"`
-	V2019        bool    `json:"v2019,omitempty"`
-	OtherPhone   string  `json:"other_phone,omitempty"`
-	PhoneRaw     kit.Hex `json:"phone_bytes,omitempty"` // phone field with nibbles a..f (the directory is named after its hex rendering)
-	Again        bool    `json:"session_repeated_on_a_new_connection,omitempty"`
+	Phone      string  `json:"phone,omitempty"`
+	V2019      bool    `json:"v2019,omitempty"`
+	OtherPhone string  `json:"other_phone,omitempty"`
+	PhoneRaw   kit.Hex `json:"phone_bytes,omitempty"` // phone field with nibbles a..f (the directory is named after its hex rendering)
+	Again      bool    `json:"session_repeated_on_a_new_connection,omitempty"`
+	// Blocked: announced (friendly) names that already exist as directories in the terminal's directory when the session
+	// starts, so storing them fails; whatever the handler does then, nothing may be left outside (TMPDIR is in the sandbox)
+	Blocked      []int   `json:"names_that_exist_as_directories,omitempty"`
 	AgainAlarmID kit.Hex `json:"alarm_id_of_the_repeat,omitempty"`
 }
 
@@ -66,7 +70,8 @@ func enterSandbox() error {
 		return err
 	}
 	sandboxRoot = root
-	return nil
+	// temporary files a handler creates are part of what it leaves on disk: keep them where the walk sees them
+	return os.Setenv("TMPDIR", filepath.Join(root, "tmp"))
 }
 
 func resetSandbox() error {
@@ -80,6 +85,9 @@ func resetSandbox() error {
 	entries, _ = os.ReadDir(work)
 	for _, e := range entries {
 		os.RemoveAll(filepath.Join(work, e.Name()))
+	}
+	if err := os.MkdirAll(filepath.Join(sandboxRoot, "tmp"), 0o755); err != nil {
+		return err
 	}
 	decoys = map[string][20]byte{}
 	for _, rel := range []string{"x", "decoy", "etc/passwd", "work/x", "work/decoy", "work/other/decoy"} {
@@ -217,11 +225,32 @@ func genC19(t *rapid.T) c19Case {
 			c.Overlap = true
 		}
 	}
+	for i, n := range c.Names {
+		if friendlyName.Match(n) && rapid.IntRange(0, 3).Draw(t, "blocked") == 0 {
+			c.Blocked = append(c.Blocked, i)
+		}
+	}
 	if rapid.IntRange(0, 3).Draw(t, "again") == 0 {
 		c.Again = true
 		c.AgainAlarmID = hostileID("alarm2", 32)
 	}
 	return c
+}
+
+var friendlyName = regexp.MustCompile(`^[a-z0-9_]{1,12}\.(jpg|mp4|bin)$`)
+
+// c19Dir is the name of the directory the terminal of c is entitled to.
+func c19Dir(c c19Case) string {
+	phone := c19Phone
+	if c.Phone != "" {
+		phone = ref.StripZeros(c.Phone)
+	}
+	if len(c.PhoneRaw) > 0 {
+		if phone = ref.StripZeros(ref.PhoneDigits(c.PhoneRaw)); phone == "" {
+			phone = ref.PhoneDigits(c.PhoneRaw) // an all-zero number keeps its zeros
+		}
+	}
+	return phone
 }
 
 func checkC19(c c19Case, _ *kit.Collector) kit.Result {
@@ -233,6 +262,14 @@ func checkC19(c c19Case, _ *kit.Collector) kit.Result {
 	if err := resetSandbox(); err != nil {
 		res.Err = fmt.Errorf("HARNESS-ERROR sandbox: %v", err)
 		return res
+	}
+	for _, i := range c.Blocked {
+		if i < len(c.Names) && friendlyName.Match(c.Names[i]) {
+			if err := os.MkdirAll(filepath.Join(sandboxRoot, "work", c19Dir(c), string(c.Names[i])), 0o755); err != nil {
+				res.Err = fmt.Errorf("HARNESS-ERROR sandbox: %v", err)
+				return res
+			}
+		}
 	}
 	alarm, tid := c.AlarmID, c.TerminalID
 	if alarm == nil {
@@ -362,6 +399,9 @@ func checkC19(c c19Case, _ *kit.Collector) kit.Result {
 	if c.Announce != nil {
 		res.Labels = append(res.Labels, "several_announcements")
 	}
+	if len(c.Blocked) > 0 {
+		res.Labels = append(res.Labels, "announced_name_exists_as_directory")
+	}
 	if c.Again {
 		res.Labels = append(res.Labels, "session_repeated")
 	}
@@ -405,7 +445,7 @@ func checkC19(c c19Case, _ *kit.Collector) kit.Result {
 					return nil
 				}
 			}
-			if p == filepath.Join(sandboxRoot, "work") || p == allowedDir {
+			if p == filepath.Join(sandboxRoot, "work") || p == allowedDir || p == filepath.Join(sandboxRoot, "tmp") {
 				return nil
 			}
 		}
